@@ -667,14 +667,14 @@ def _incs_in(cfg, blks):
 
 def run(prog, rep, tier, snap):
     rep.rule("R11.1", "ownership test dominates every effect on a task handle taken from the shared table; uid gate of cmd_http", 15)
-    n = r11_1(prog, rep)
-    r11_1_gate(prog, rep)
-    r11_1_dump(prog, rep)
+    n = rep.call(r11_1, prog, rep)
+    rep.call(r11_1_gate, prog, rep)
+    rep.call(r11_1_dump, prog, rep)
     rep.rule("R11.2", "one reply per acted-upon instruction with the right polarity (path-sensitive walk of cmd_ical)", 4)
-    r11_2(prog, rep)
+    rep.call(r11_2, prog, rep)
     rep.rule("R11.3", "run-as uid/gid provenance: dflt_cred only, written only from compl_uid(authenticated uid)", 4)
-    r11_3(prog, rep)
+    rep.call(r11_3, prog, rep)
     rep.rule("R11.4", "counted traversals of the shared task table cover every slot", 4)
-    r11_4(prog, rep)
+    rep.call(r11_4, prog, rep)
 
 READY = True
